@@ -76,3 +76,22 @@ Definition base_copy (c : refcol) (data : list cell) : refcol :=
   {| rc_kind := rc_kind c; rc_data := data; rc_inv := rc_inv c |}.
 
 Definition enumerate {A} (l : list A) : list (nat * A) := combine (seq 0 (length l)) l.
+
+(* ---- the de-duplication block of doBulkUpdateRecord ------------------------------------------------------------ *)
+(* a dict with int keys, in insertion order: d[k] = v *)
+Fixpoint nm_put (k v : nat) (m : list (nat * nat)) : list (nat * nat) :=
+  match m with
+  | [] => [(k, v)]
+  | (k0, v0) :: m' => if Nat.eqb k k0 then (k0, v) :: m' else (k0, v0) :: nm_put k v m'
+  end.
+
+(* sorted() of a list of ints (keeps duplicates) *)
+Fixpoint ins_nat (x : nat) (l : list nat) : list nat :=
+  match l with
+  | [] => [x]
+  | y :: t => if Nat.leb x y then x :: l else y :: ins_nat x t
+  end.
+Definition sort_nat (l : list nat) : list nat := fold_right ins_nat [] l.
+
+(* len(set(l)) *)
+Definition distinct_count (l : list nat) : nat := length (nodup Nat.eq_dec l).
